@@ -214,3 +214,14 @@ package keeper
 //@   flag pure=IsAVS,GetChainIDByAVSAddr,IsOperatorFrozen
 //@   ensures[C07.oo.active] err == nil ==> old(isActiveOp(ctx, accstr(operatorAddress), avsAddr))
 //@   before[C07.oo.active] InitiateOperatorKeyRemovalForChainID requires old(isActiveOp(ctx, accstr(operatorAddress), avsAddr))
+
+// C07/C16: at the end of an epoch exactly the previous-key records of the chain are cleared (so that the next
+// replacement in a later epoch records - and schedules the pruning of - the key that was active): the iteration runs
+// over the previous-key collection of this chain id, nothing else.
+//@ func (Keeper).ClearPreviousConsensusKeys
+//@   flag pure=ChainIDWithLenKey
+//@   modifies store(ctx, "operator")
+//@   before[C07.cpck.prefix] KVStorePrefixIterator requires
+//@        arg_prefix == cat(bytelit(g("x/operator/types.BytePrefixForOperatorAndChainIDToPrevConsKey")), res_ChainIDWithLenKey_0)
+//@ loop #1
+//@   invariant true
